@@ -36,7 +36,7 @@ EOMQ = "equationOfMotion.EOM"
 def make_eom(nparticles=2):
     veff = SymObj("EffectivePotential", "effectivePotential", label="effectivePotential")
     thermo = SymObj("Thermodynamics", "thermodynamics", label="thermo", attrs={"effectivePotential": veff})
-    hydro = SymObj("Hydrodynamics", "hydrodynamics", label="hydro", attrs={"Tnucl": real("Tnucl")})
+    hydro = SymObj("Hydrodynamics", "hydrodynamics", label="hydro", attrs={"Tnucl": real("Tnucl")}, open_=True)
     parts = []
     for i in range(nparticles):
         pt = SymObj("Particle", "particle", label=f"particle{i}", attrs={"totalDOFs": real(f"dof{i}"), "__index__": i,
@@ -154,7 +154,8 @@ def c_point(chk):
     reg["EOM.deltaToTmunu"] = lambda it, so, a, k: (T30, T33)
 
     def inv(it, envv):
-        return [Gt(envv.lookup("testTemp"), 0) if False else sp.true]
+        # the bracket end moves away from the (scaled) minimiser always in the same direction
+        return [Eq(envv.lookup("testTemp"), envv.lookup("tempAtMinimum") * envv.lookup("TMultiplier")), Ge(envv.lookup("tempAtMinimum"), 0)]
     havoc = {"tempAtMinimum": lambda it: it.fresh_real("tempAtMinimum"), "testTemp": lambda it: it.fresh_real("testTemp"),
              "i": lambda it: it.fresh_int("i")}
     loops = {("EOM.findPlasmaProfilePoint", 0): loop_spec(inv, havoc)}
@@ -183,6 +184,12 @@ def c_point(chk):
         if rs:
             e = rs[0]
             chk.vc(f"findPlasmaProfilePoint.root.residual.{i}", p.pc, Eq(e["generic_f"], LHS(e["generic_x"], s1, s2)), func=fn)
+            # which of the two roots of the parabola: the one BELOW the minimum exactly for detonations, recognised by T+ = Tn
+            # (the wall runs into unperturbed plasma; C02/C06: matchDeton returns T+ = Tn), the one above it otherwise.
+            # The bracket runs from the (scaled) minimiser to a test temperature at least 20 % away on that side (loop invariant).
+            det = Lt(sp.Abs(real("Tnucl") - Tp), sym.R(1, 10**10))
+            chk.vc(f"findPlasmaProfilePoint.root.branch-below-minimum-iff-detonation.{i}", p.pc,
+                   And(Implies(det, Le(e["b"], e["a"] * sym.R(8, 10))), Implies(Not(det), Ge(e["b"], e["a"] * sym.R(12, 10)))), func=fn)
             chk.canary(f"findPlasmaProfilePoint.root.T33-balance.{i}", facts, Eq(LHS(Tr, s1, s2), 1), func=fn)
     if kinds["root"] == 0 or kinds["min"] == 0:
         chk.undecided.append(f"findPlasmaProfilePoint: path classes {kinds}")
